@@ -263,4 +263,32 @@ PROPS = {
         "assumptions": ["interleavings inside one git update-ref are left to git's reference lock",
                         "State.Commit / Apply as concurrent writers are not explored (their rollback is not compare-and-set)"],
     },
+    "C20": {
+        "test": "TestC20",
+        "lean_modules": ["Gittuf.Props.C20"],
+        "n": {"quick": 150, "thorough": 2000},
+        "shards": 2,
+        "min_per_shard": 60,
+        "rule": "1 environment graph per run: every table / Go function / Lua function / userdata reachable from the globals table, the thread "
+                "environment and the basic types' metatables of a real LuaEnvironment through fields, object keys, metatables, function "
+                "environments, upvalues and prototype constants, plus the registry as hidden root; Go functions identified by implementation "
+                "symbol against a reference state with all standard libraries; an in-sandbox Lua walk (pairs/getfenv, smuggled out through "
+                "error()) is compared with the Go walk; the graph is compared with the committed snapshot and judged by safeB. Scripts from "
+                "VERIF_SEED: 52% probes (38 forbidden and 45 allowed paths x 17 access routes: direct, coroutine.wrap/create, xpcall, "
+                "getfenv(0|1|none|api|lua api|library fn), setfenv(1,{}), pairs, next, select, unpack, methods through a string value, "
+                "string.__index), 22% writes to string/math/table/coroutine/_G (existing and new keys; assignment, via getfenv, via the string "
+                "metatable, table.insert, plain global assignment; nil/function/number/table values), 12% return-value shapes (nothing, no "
+                "return statement, 1-3 values of nil/string/table/boolean/function/coroutine/userdata/number), 6% non-terminating scripts "
+                "under a 1 s timeout (tight loops, pcall/xpcall-wrapped loops, recursion, pcall recursion, coroutine ping-pong, loops inside "
+                "coroutines, format/concat/sort/gsub callbacks, regex API, doubling, bounded tail-call chains, backtracking patterns) with "
+                "wall time measured against timeout + 2 s, 8% hook selection through Repository.InvokeHooksForStage on a real repository with an "
+                "applied policy (1-3 principals, shared keys, 0-3 hooks over both stages, signer = principal key / root key / outsider). "
+                "non-trivial = reached value or forbidden path, any write, non-number result, any timing case, hooks run or refused for the "
+                "principal; distinct by input hash.",
+        "trusted_base": COMMON_TB + ["capability table capOf (what each allow-listed gopher-lua v1.1.2 function can return / mutate), written by hand from the library source",
+                                     "identification of Go functions by runtime symbol (runtime.FuncForPC) and the reflective walk of gopher-lua's LState"],
+        "assumptions": ["wall-clock measurements use a slack of 2 s; time inside one Go library call and inside error construction is measured, not modelled",
+                        "pre-push hook invocation (needs a remote) is not driven; the stage filter is exercised by hooks declared for pre-push only",
+                        "memory exhaustion (string doubling) is outside the property and not generated"],
+    },
 }
